@@ -21,6 +21,13 @@ CHECKS = {
         note="Trusted: CPython's ast.parse/compile as the reference; the canonical form (self-tested: 6 equal pairs, 48 single-field perturbations); input convention of xonsh's own callers (exec/single text ends with newline, eval text does not). CR newlines, form feeds and coding declarations are out of domain.",
         design="2/C01",
     ),
+    "C03": dict(
+        category="exploration",
+        technique="differential property-based testing (bare program vs generator-made explicit ![..] twin, traces compared) + grammar-aware string fuzzing of Execer.parse under a hang bound",
+        text="Chains of 1-4 generated command segments (words, quoted strings, $VAR, @(), $(), redirects, pipes) joined by &&, ||, and, or are embedded in generated Python contexts (top level, before/after `;`, blocks of every compound statement kind nested to depth 4 with tab/2/4/8-space indents, backslash continuations) and executed twice in fresh sessions - bare and with every segment wrapped in ![..] by the generator; recorded alias calls, stdin, redirect-target contents and the escaping exception must agree. Arbitrary strings (metacharacter-weighted text, splices/truncations/insertions on valid programs) go through Execer.parse: tree, None or SyntaxError only, within 20 s. Six recorded defects are attributed by narrow shape predicates and mostly avoided.",
+        note="Trusted: the generator's explicit twin; a twin that is itself a SyntaxError is a discard; what lands on the shell's own stdout is not compared (C06/C07); the hang bound (SIGALRM, re-armed) as the meaning of 'terminates'.",
+        design="2/C03",
+    ),
     "C04": dict(
         category="exploration",
         technique="property-based round-trip testing: Hypothesis-generated command lines whose expected argv is known by construction, observed through a recording callable alias and through a real child process (netstring argv dump), decoy files against unintended globbing",
@@ -41,6 +48,20 @@ CHECKS = {
         text="Histories of directory commands with valid, out-of-range, malformed, missing, non-directory and permission-denied targets over a tree with symlinks, issued through the real aliases and through Execer.exec; after every step $PWD/getcwd/$OLDPWD/DIRSTACK are compared with the model; failed operations must change nothing. Three recorded defects are tolerated only in their exact shape.",
         note="Trusted: the reference model (bash manual + docstrings); ambiguous forms (dir named '-' or '+1', logical vs physical '..') accept every documented reading; permission failures are made real by dropping CAP_DAC_OVERRIDE in the worker.",
         design="2/C16",
+    ),
+    "C13": dict(
+        category="fault_enumeration",
+        technique="fault injection with exhaustive crash-point and single-fault enumeration per generated scenario (fork + counting wrappers around file-system entry points; strace syscall-level kill injection for SQLite)",
+        text="For each generated scenario (1-4 JSON history files, locks, stale locks, corrupt member, one rewriting operation: flush, at-exit flush, delete, erasedups, GC start-up unlock, run_gc) the operation's file-system operations are counted in a reference run; then every crash point (os._exit before op k), every partial-write length class and every single failing call (ENOSPC/EIO/EACCES/EMFILE) is executed in a fresh fork and the parent checks that each history file is its complete old or complete new version and loadable. SQLite: the driver is killed by strace at sampled (quick) / all (thorough) write-class syscalls; integrity_check and row survival. Two recorded defects.",
+        note="Trusted: the wrapped entry points cover every file-system call of the operation (self-check: every changed file must be explained by a wrapped op, else exit 2); power-loss reordering below rename is not modelled; scenario space is sampled, crash points per scenario are complete.",
+        design="2/C13",
+    ),
+    "C14": dict(
+        category="exploration",
+        technique="exhaustive small-scope enumeration through the real GC on real directories + Hypothesis-generated collections with symbolic boundary limits, against a model written from the property text; harness-owned clock",
+        text="Every collection of <= 3 (quick) / <= 4 (thorough) history files x command counts x lock states x limits x {commands, files} x force runs through the real JsonHistoryGC / `history gc` on a scratch directory; generated collections add byte sizes, ages, corrupt members, all four units and limits placed on every suffix-sum boundary +-1; the deleted set must be an oldest-first prefix of unlocked loadable files, the kept set the largest newest suffix that fits, nothing deleted within the limit, refusal rule per both readings. SQLite: newest N rows kept. Three recorded defects tolerated only in their exact shape.",
+        note="Trusted: the model; both readings of 'discard more than it keeps' are accepted in the ambiguous zone; time and boot time are replaced by fixed values inside the worker (self-checked).",
+        design="2/C14",
     ),
     "C15": dict(
         category="exploration",
